@@ -447,3 +447,110 @@ func RunImport(r *report.Run) int {
 	}
 	return len(cs)
 }
+
+// ---------- `migrate hash` / `migrate validate` with the directory and its format given through
+// every channel the CLI has: the sum one command writes is the sum every other command expects ----------
+
+type ViaCase struct {
+	Format string `json:"format"`
+	Hash   string `json:"hash_via"`     // how `migrate hash` learns directory and format
+	Check  string `json:"validate_via"` // how `migrate validate` does
+	Edit   bool   `json:"edit"`         // a migration file is edited after the hash
+}
+
+var viaChannels = []string{"url_param", "dir_format_flag", "project_file", "project_dir_flag_format"}
+
+func viaFiles(format string) (files map[string]string, edited string) {
+	body := func(i int) string { return fmt.Sprintf("CREATE TABLE t%d (id integer);\n", i) }
+	files = map[string]string{}
+	for i := 1; i <= 2; i++ {
+		switch format {
+		case "golang-migrate":
+			files[fmt.Sprintf("%d_s.up.sql", i)] = body(i)
+			files[fmt.Sprintf("%d_s.down.sql", i)] = fmt.Sprintf("DROP TABLE t%d;\n", i)
+			edited = "2_s.up.sql"
+		case "goose":
+			files[fmt.Sprintf("%d_s.sql", i)] = "-- +goose Up\n" + body(i) + "\n-- +goose Down\n" + fmt.Sprintf("DROP TABLE t%d;\n", i)
+			edited = "2_s.sql"
+		case "dbmate":
+			files[fmt.Sprintf("%d_s.sql", i)] = "-- migrate:up\n" + body(i) + "\n-- migrate:down\n" + fmt.Sprintf("DROP TABLE t%d;\n", i)
+			edited = "2_s.sql"
+		case "flyway":
+			files[fmt.Sprintf("V%d__s.sql", i)] = body(i)
+			files[fmt.Sprintf("U%d__s.sql", i)] = fmt.Sprintf("DROP TABLE t%d;\n", i)
+			edited = "V2__s.sql"
+		default: // atlas
+			files[fmt.Sprintf("%d_s.sql", i)] = body(i)
+			edited = "2_s.sql"
+		}
+	}
+	return
+}
+
+func evalVia(c ViaCase) (problems []string) {
+	bad := func(f string, a ...any) { problems = append(problems, fmt.Sprintf(f, a...)) }
+	wk, err := clih.NewWork()
+	if err != nil {
+		return []string{"harness: " + err.Error()}
+	}
+	defer wk.Close()
+	files, edited := viaFiles(c.Format)
+	os.MkdirAll(wk.Path("mig"), 0o755)
+	for n, b := range files {
+		os.WriteFile(wk.Path("mig", n), []byte(b), 0o644)
+	}
+	dirURL := "file://" + wk.Path("mig")
+	os.WriteFile(wk.Path("with_format.hcl"), []byte(fmt.Sprintf("env \"local\" {\n  migration {\n    dir = %q\n    format = %s\n  }\n}\n", dirURL, c.Format)), 0o644)
+	os.WriteFile(wk.Path("dir_only.hcl"), []byte(fmt.Sprintf("env \"local\" {\n  migration {\n    dir = %q\n  }\n}\n", dirURL)), 0o644)
+	args := func(cmd, via string) []string {
+		switch via {
+		case "url_param":
+			return []string{"migrate", cmd, "--dir", dirURL + "?format=" + c.Format}
+		case "dir_format_flag":
+			return []string{"migrate", cmd, "--dir", dirURL, "--dir-format", c.Format}
+		case "project_file":
+			return []string{"migrate", cmd, "-c", "file://" + wk.Path("with_format.hcl"), "--env", "local"}
+		default:
+			return []string{"migrate", cmd, "-c", "file://" + wk.Path("dir_only.hcl"), "--env", "local", "--dir-format", c.Format}
+		}
+	}
+	if h := wk.Run(nil, args("hash", c.Hash)...); h.Exit != 0 {
+		bad("`migrate hash` (%s) failed: %s", c.Hash, h)
+		return
+	}
+	if c.Edit {
+		os.WriteFile(wk.Path("mig", edited), []byte(files[edited]+"-- edited\n"), 0o644)
+	}
+	v := wk.Run(nil, args("validate", c.Check)...)
+	switch {
+	case !c.Edit && v.Exit != 0:
+		bad("`migrate hash` (%s) wrote the sum, nothing was edited, yet `migrate validate` (%s) fails: %s", c.Hash, c.Check, v)
+	case c.Edit && v.Exit == 0:
+		bad("file %s was edited after `migrate hash` (%s), yet `migrate validate` (%s) exits 0", edited, c.Hash, c.Check)
+	}
+	return
+}
+
+// RunVia: formats x hash channel x validate channel x {untouched, edited}.
+func RunVia(r *report.Run) int {
+	defer clih.Cleanup()
+	var cs []ViaCase
+	for _, f := range []string{"atlas", "golang-migrate", "goose", "dbmate", "flyway"} {
+		for _, h := range viaChannels {
+			for _, v := range viaChannels {
+				for _, e := range []bool{false, true} {
+					cs = append(cs, ViaCase{f, h, v, e})
+				}
+			}
+		}
+	}
+	res := make([][]string, len(cs))
+	enum.Parallel(len(cs), func(i, _ int) { res[i] = evalVia(cs[i]) })
+	for i, c := range cs {
+		r.Case(fmt.Sprintf("via|%+v", c), true)
+		if len(res[i]) > 0 {
+			r.Violate("", fmt.Sprintf("format %s, hash via %s, validate via %s, edited=%v: %s", c.Format, c.Hash, c.Check, c.Edit, strings.Join(res[i], " | ")), map[string]any{"via_case": c})
+		}
+	}
+	return len(cs)
+}
